@@ -11,6 +11,8 @@ package c20
 import (
 	"context"
 	"fmt"
+	"regexp"
+	"runtime"
 	"sort"
 	"strings"
 	"testing"
@@ -57,6 +59,7 @@ type addRec struct {
 	startStep, endStep     int
 	doneAtStart, doneAtEnd bool // pool context done when Add was called / when it returned
 	class                  byte // 'D' definitely a member, 'P' possibly, 'R' certainly not a member
+	panicked               bool // Add panicked (in the context's Done) and the harness recovered
 	ended                  bool // class 'R' because the pool had ended (done / Cancel returned) when Add was called
 }
 
@@ -127,10 +130,17 @@ func mkExec(s scen) *mc.Exec {
 				}()
 				for i := 0; i < len(s.adds); i++ {
 					k := s.adds[i]
-					c := &cx{name: fmt.Sprintf("add%d(%c)", i, k), kind: k, liveAtOffer: k != 'X'}
+					c := &cx{name: fmt.Sprintf("add%d(%c)", i, k), kind: k, liveAtOffer: k != 'X' && k != 'P'}
 					var ctx context.Context = bg
 					var cancel context.CancelFunc
-					if k != 'B' {
+					switch k {
+					case 'B':
+					case 'P':
+						// a half-initialised wrapper: Done() panics; it can never
+						// be a member, the oracle treats it like an ended context
+						ctx = brokenCtx{}
+						c.end = tick()
+					default:
 						ctx, cancel = mc.CtxWithCancel(bg)
 					}
 					if k == 'X' {
@@ -140,7 +150,11 @@ func mkExec(s scen) *mc.Exec {
 					ctxs = append(ctxs, c)
 					a := &addRec{c: c, start: tick(), startStep: mc.Step(), doneAtStart: poolDone()}
 					adds = append(adds, a)
-					pool.Add(ctx)
+					if k == 'P' {
+						a.panicked = offerRecovering(pool, ctx) // like a handler behind a recover middleware
+					} else {
+						pool.Add(ctx)
+					}
 					a.end, a.endStep, a.doneAtEnd = tick(), mc.Step(), poolDone()
 					if k == 'K' {
 						end(c, cancel)
@@ -362,7 +376,19 @@ func mkExec(s scen) *mc.Exec {
 				return fmt.Errorf("[key=%s] SIZE: Size() does not report the members being tracked\nSize() called at step %d returned %d, the tracked members number between %d and %d (initially live %d; adds %s; Cancel called=%v returned=%v)", sizeKey(r.v, hi, hiR, hiZ), r.step, r.v, lo, hi, nInit, addSummary(adds), cancelCalledBefore(r.end), cancelEnd > 0 && cancelEnd < r.start)
 			}
 		}
-		final := pool.Size() // controller context: immediate
+		// controller context: immediate, unless the pool's lock was never released
+		final, stuck := 0, false
+		func() {
+			defer func() {
+				if recover() != nil {
+					stuck = true
+				}
+			}()
+			final = pool.Size()
+		}()
+		if stuck {
+			return fmt.Errorf("[key=deadlock] the pool's lock is still held at final quiescence: Size() would never return\nparked=%v", e.Parked())
+		}
 		lo, hi, hiR, hiZ := bounds(never, never)
 		if final < lo || final > hi {
 			return fmt.Errorf("[key=%s] SIZE: Size() at final quiescence does not report the members being tracked\nSize() = %d, the tracked members number between %d and %d (initially live %d; adds %s; Cancel called=%v)", sizeKey(final, hi, hiR, hiZ), final, lo, hi, nInit, addSummary(adds), cancelStart > 0)
@@ -379,10 +405,33 @@ func mkExec(s scen) *mc.Exec {
 	return &mc.Exec{Body: body, Check: check}
 }
 
+// brokenCtx is a context wrapper whose inner context was never set: Done()
+// panics with a nil dereference.
+type brokenCtx struct{ context.Context }
+
+// offerRecovering calls pool.Add and swallows a panic raised by the context
+// itself, as a server's recover middleware does.
+func offerRecovering(pool *kitctx.Pool, ctx context.Context) (panicked bool) {
+	defer func() {
+		if r := recover(); r != nil {
+			if _, ok := r.(runtime.Error); !ok {
+				panic(r) // not ours (model runtime)
+			}
+			panicked = true
+		}
+	}()
+	pool.Add(ctx)
+	return false
+}
+
 func addSummary(adds []*addRec) string {
 	var out []string
 	for _, a := range adds {
-		out = append(out, fmt.Sprintf("%s:%c", a.c.name, a.class))
+		x := ""
+		if a.panicked {
+			x = "!panicked"
+		}
+		out = append(out, fmt.Sprintf("%s:%c%s", a.c.name, a.class, x))
 	}
 	return "[" + strings.Join(out, " ") + "]"
 }
@@ -423,6 +472,8 @@ func orders(digits string) []string {
 	return out
 }
 
+var panicAddRe = regexp.MustCompile(`add="[^"]*P[^"]*"`)
+
 func scenarios() []hx.Scenario {
 	var out []hx.Scenario
 	add := func(s scen, bound, minBound int, thoroughOnly bool) {
@@ -439,7 +490,7 @@ func scenarios() []hx.Scenario {
 	inits = append(inits, "B", "BL", "LB", "XB", "BLL", "LBX")
 	// adder scripts: every 1-2 Adds over live / live-then-cancelled / ended;
 	// "DK" cancels the two added contexts in reverse order, "DD" in order
-	addScripts := []string{"", "L", "K", "X", "B", "LL", "LK", "KL", "KK", "DK", "DD", "LX", "XL", "KX", "XK", "XX", "BK"}
+	addScripts := []string{"", "L", "K", "X", "B", "LL", "LK", "KL", "KK", "DK", "DD", "LX", "XL", "KX", "XK", "XX", "BK", "P", "PL", "PK", "LP", "KP", "PP"}
 	for _, in := range inits {
 		live := ""
 		for i := range in {
@@ -482,6 +533,19 @@ func scenarios() []hx.Scenario {
 			}
 		}
 	}
+	// scenarios with a context whose Done() panics first (the driver spends
+	// spare quick budget on thorough-only scenarios in list order), then those
+	// in which Cancel races an adder
+	rank := func(n string) int {
+		switch {
+		case panicAddRe.MatchString(n):
+			return 0
+		case strings.Contains(n, " Cancel") && !strings.Contains(n, `add=""`):
+			return 1
+		}
+		return 2
+	}
+	sort.SliceStable(out, func(i, j int) bool { return rank(out[i].Name) < rank(out[j].Name) })
 	return out
 }
 
